@@ -172,3 +172,18 @@ def override_sequences(master_version, local):
     out = [sid for sid in wmo.seqs if sid in both and sid not in changed and reaches(tw.D[sid][1], 1, {sid})]
     _OVERRIDES[key] = out
     return out
+
+
+_VDIFF = {}
+
+
+def version_diff_elements(v1, v2):
+    """numeric elements that both master table versions define with the same width but another scale or reference
+    value (the same bits mean another number)"""
+    key = (v1, v2)
+    if key not in _VDIFF:
+        a, b = pool_for(v1).tables.B, pool_for(v2).tables.B
+        _VDIFF[key] = [i for i in sorted(a) if i in b and a[i].kind == 'num' and b[i].kind == 'num' and a[i].nbits == b[i].nbits
+                       and (a[i].scale, a[i].ref) != (b[i].scale, b[i].ref) and i // 1000 not in (0, 31)
+                       and not a[i].sut_numeric_codeish and not b[i].sut_numeric_codeish and 1 <= a[i].nbits <= 32]
+    return _VDIFF[key]
